@@ -32,6 +32,11 @@ pub enum Fault {
     Vis { k: u32, exit: bool },
     /// the k-th nested `Serialize::serialize` call returns Err
     Ser { k: u32 },
+    /// F-SEED: the reader's k-th `DeserializeSeed::deserialize` (= `T::deserialize` of an element, value,
+    /// key or variant) fails *outside* any visitor callback: before touching the deserializer (exit=false:
+    /// e.g. a type that rejects the format) or after it returned Ok (exit=true: `#[serde(try_from)]`,
+    /// `deserialize_with`, validation)
+    Seed { k: u32, exit: bool },
 }
 
 #[derive(Clone, Debug)]
@@ -76,6 +81,7 @@ pub struct Ctx {
     pub fault: Cell<Fault>,
     pub vis_count: Cell<u32>,
     pub ser_count: Cell<u32>,
+    pub seed_count: Cell<u32>,
     pub fired: RefCell<Option<Fired>>,
     pub path: RefCell<Vec<Seg>>,
     pub hints: RefCell<Vec<HintRec>>,
@@ -106,6 +112,7 @@ impl Ctx {
             fault: Cell::new(fault),
             vis_count: Cell::new(0),
             ser_count: Cell::new(0),
+            seed_count: Cell::new(0),
             fired: RefCell::new(None),
             path: RefCell::new(Vec::new()),
             hints: RefCell::new(Vec::new()),
@@ -399,7 +406,24 @@ pub struct PSeed<'c, S> {
 impl<'de, 'c, S: DeserializeSeed<'de>> DeserializeSeed<'de> for PSeed<'c, S> {
     type Value = S::Value;
     fn deserialize<D: Deserializer<'de>>(self, d: D) -> Result<S::Value, D::Error> {
-        self.s.deserialize(PDe { d, cx: self.cx })
+        let cx = self.cx;
+        let k = cx.seed_count.get();
+        cx.seed_count.set(k + 1);
+        if let Fault::Seed { k: fk, exit } = cx.fault.get() {
+            if fk == k && !cx.has_fired() {
+                if !exit {
+                    cx.fire("seed", false, "");
+                    return Err(<D::Error as de::Error>::custom(format_args!("injected@{k}")));
+                }
+                let r = self.s.deserialize(PDe { d, cx });
+                if r.is_ok() && !cx.has_fired() {
+                    cx.fire("seed", true, "");
+                    return Err(<D::Error as de::Error>::custom(format_args!("injected@{k}")));
+                }
+                return r;
+            }
+        }
+        self.s.deserialize(PDe { d, cx })
     }
 }
 
@@ -488,7 +512,7 @@ impl<'de, 'c, 'k, S: DeserializeSeed<'de>> DeserializeSeed<'de> for PEntryKey<'c
         let cx = self.cx;
         cx.keycap.borrow_mut().push(None);
         cx.keyidx.borrow_mut().push(self.idx);
-        let r = self.s.deserialize(PDe { d, cx });
+        let r = PSeed { s: self.s, cx }.deserialize(d);
         cx.keyidx.borrow_mut().pop();
         *self.slot.borrow_mut() = cx.pop_key();
         r
@@ -505,7 +529,7 @@ impl<'de, 'c, 'k, S: DeserializeSeed<'de>> DeserializeSeed<'de> for PEntryVal<'c
         let cx = self.cx;
         let k = self.slot.borrow_mut().take().unwrap_or_else(|| "<unknown-key>".to_string());
         cx.path.borrow_mut().push(Seg::Key(k));
-        let r = self.s.deserialize(PDe { d, cx });
+        let r = PSeed { s: self.s, cx }.deserialize(d);
         cx.path.borrow_mut().pop();
         r
     }
